@@ -2,21 +2,216 @@
 
 package ir_test
 
-// Family K: one sub-family per construct of the property's list.
+// Family K: one sub-family per construct of the property's list. Programs are hand-written
+// templates multiplied by small lists of operand shapes and enclosing skeletons.
 
-// c01EnumerateK returns the K programs; level 1 = quick, 2 = thorough (a superset: the
-// quick programs keep their indices).
-func c01EnumerateK(level int) []c01Prog {
-	var out []c01Prog
-	add := func(fam, desc, src string, globals ...string) {
-		n := 0
-		for _, p := range out {
-			if p.Family == fam {
-				n++
-			}
+import (
+	"strings"
+)
+
+type c01K struct {
+	out   []c01Prog
+	level int
+}
+
+func (k *c01K) add(fam, desc, src string, globals ...string) {
+	n := 0
+	for _, p := range k.out {
+		if p.Family == fam {
+			n++
 		}
-		out = append(out, c01Prog{Family: fam, Index: n, Desc: desc, Src: src, Globals: globals})
 	}
-	add("K:rangeint", "sum", "func f§(a, b int) (r int) {\n\tfor i := range b + 2 {\n\t\tr += i * a\n\t\tobs(r)\n\t}\n\treturn\n}\n")
-	return out
+	k.out = append(k.out, c01Prog{Family: fam, Index: n, Desc: desc, Src: src, Globals: globals, Generic: fam == "K:generics"})
+}
+
+// c01KWraps are the enclosing skeletons for statement lists that contain no return statement
+// and declare no labels used from outside.
+var c01KWraps = []struct {
+	name string
+	f    func(core string) string
+}{
+	{"plain", func(c string) string { return c }},
+	{"loop2", func(c string) string { return "for k := 0; k < 2; k++ {\n" + c01Ind(c) + "}\n" }},
+	{"if", func(c string) string { return "if a >= 0 {\n" + c01Ind(c) + "} else {\n\tobs(-99)\n}\n" }},
+	{"closure", func(c string) string { return "func() {\n" + c01Ind(c) + "}()\n" }},
+	{"switch", func(c string) string {
+		return "switch {\ncase b > 5:\n\tobs(-98)\ncase b >= 0:\n" + c01Ind(c) + "default:\n\tobs(-97)\n}\n"
+	}},
+}
+
+func (k *c01K) nwraps() int {
+	if k.level >= 2 {
+		return len(c01KWraps)
+	}
+	return 2
+}
+
+// body adds `func f§(a, b int) (r int) { pre; wrap(core); post; return }` for each wrapper.
+func (k *c01K) body(fam, desc, decls, pre, core, post string, globals ...string) {
+	for w := 0; w < k.nwraps(); w++ {
+		src := decls + "func f§(a, b int) (r int) {\n" + c01Ind(pre) + c01Ind(c01KWraps[w].f(core)) + c01Ind(post) + "\treturn\n}\n"
+		k.add(fam, desc+"/"+c01KWraps[w].name, src, globals...)
+	}
+}
+
+// c01EnumerateK returns the K programs; level 1 = quick, 2 = thorough (more enclosing
+// skeletons). Replay always searches level 2; families are therefore suffixed with the level
+// when the index depends on it.
+func c01EnumerateK(level int) []c01Prog {
+	k := &c01K{level: level}
+	k.rangeInt()
+	k.rangeSlice()
+	k.rangeString()
+	k.rangeFunc()
+	k.deferRecover()
+	k.multiRet()
+	k.methods()
+	k.typeSwitch()
+	k.generics()
+	k.closures()
+	k.aggregates()
+	k.stringsOps()
+	k.intOps()
+	k.nilDeref()
+	k.indexOOB()
+	k.switches()
+	k.labels()
+	k.maps()
+	k.conversions()
+	k.pointers()
+	k.evalOrder()
+	if level < 2 {
+		return k.out
+	}
+	for i := range k.out {
+		k.out[i].Family += "+"
+	}
+	return k.out
+}
+
+func c01Lines(ss ...string) string { return strings.Join(ss, "\n") + "\n" }
+
+// ---------------------------------------------------------------------------------------------
+
+func (k *c01K) rangeInt() {
+	fam := "K:rangeint"
+	bounds := []string{"b", "b + 2", "a * b", "len(s)"}
+	bodies := []struct{ name, body, post string }{
+		{"sum", "r += i\nobs(i)\n", ""},
+		{"continue", "if i == a {\n\tcontinue\n}\nobs(i)\nr += i\n", ""},
+		{"break", "if i == a {\n\tbreak\n}\nobs(i)\nr++\n", ""},
+		{"modvar", "i += 2\nobs(i)\nr += i\n", ""},
+		{"capture", "fs = append(fs, func() int { return i })\n", "for _, f := range fs {\n\tr = r*10 + f()\n}\n"},
+		{"nested", "for j := range i + 1 {\n\tr += j\n\tobs(i*10 + j)\n}\n", ""},
+		{"addr", "p := &i\n*p += 1\nobs(i)\nr += *p\n", ""},
+	}
+	for _, n := range bounds {
+		for _, bd := range bodies {
+			core := "for i := range " + n + " {\n" + c01Ind(bd.body) + "}\n" + bd.post
+			k.body(fam, bd.name+" over "+n, "", "s := []int{1, 2, 3}\n_ = s\nvar fs []func() int\n_ = fs\n", core, "")
+		}
+		k.body(fam, "novar over "+n, "", "s := []int{1, 2, 3}\n_ = s\n", "for range "+n+" {\n\tr++\n\tobs(r)\n}\n", "")
+	}
+	k.body(fam, "typed int8", "", "", "n8 := int8(b + 1)\nfor i := range n8 {\n\tr += int(i)\n\tobs(int(i))\n}\n", "")
+	k.body(fam, "bound evaluated once", "func cnt§(n int) int {\n\tobs(100)\n\treturn n\n}\n", "", "for i := range cnt§(b + 1) {\n\tr += i\n\tb++\n}\nobs(b)\n", "")
+	k.body(fam, "assign existing var", "", "var i int\n", "for i = range b + 1 {\n\tr += i\n}\nobs(i)\n", "")
+}
+
+func (k *c01K) rangeSlice() {
+	fam := "K:rangeslice"
+	conts := []struct{ name, decl string }{
+		{"slice", "s := []int{a, b, 3}\n"},
+		{"array", "s := [3]int{a, b, 3}\n"},
+		{"arrayptr", "s := &[3]int{a, b, 3}\n"},
+	}
+	loops := []struct{ name, loop string }{
+		{"kv", "for i, v := range s {\n\tobs(i)\n\tobs(v)\n\tr += v * (i + 1)\n}\n"},
+		{"k", "for i := range s {\n\ts[i] += i\n\tr += s[i]\n}\n"},
+		{"v-mutate", "for _, v := range s {\n\ts[2] = 100\n\tr += v\n\tobs(v)\n}\nobs(s[2])\n"},
+		{"v-capture", "var fs []func() int\nfor _, v := range s {\n\tfs = append(fs, func() int { return v })\n}\nfor _, f := range fs {\n\tr = r*3 + f()\n}\n"},
+		{"v-addr", "var ps []*int\nfor i, v := range s {\n\tv += i\n\tps = append(ps, &v)\n}\nfor _, p := range ps {\n\tr += *p\n\tobs(*p)\n}\n"},
+		{"break-continue", "for i, v := range s {\n\tif v == 0 {\n\t\tcontinue\n\t}\n\tif i == 2 {\n\t\tbreak\n\t}\n\tr += v\n\tobs(i)\n}\n"},
+	}
+	for _, c := range conts {
+		for _, l := range loops {
+			k.body(fam, l.name+" over "+c.name, "", c.decl, l.loop, "")
+		}
+	}
+	k.body(fam, "append during range", "", "s := []int{a, b}\n", "for i, v := range s {\n\tif i == 0 {\n\t\ts = append(s, 9)\n\t}\n\tr += v\n\tobs(v)\n}\nobs(len(s))\n", "")
+	k.body(fam, "subslice may panic", "", "s := []int{1, 2, 3}\n", "for i, v := range s[a+1:] {\n\tr += v * (i + 1)\n}\n", "")
+	k.body(fam, "nil slice", "", "var s []int\n", "for range s {\n\tr++\n}\nfor i := range s {\n\tr += i\n}\nobs(len(s))\n", "")
+	k.body(fam, "array of structs is copied", "type E§ struct{ x, y int }\n", "es := [2]E§{{a, 1}, {b, 2}}\n", "for _, e := range es {\n\te.x++\n\tr += e.x\n}\nfor i := range es {\n\tes[i].y += es[i].x\n}\nr += es[0].x + es[1].y\n", "")
+	k.body(fam, "range expr evaluated once", "func mk§(a int) []int {\n\tobs(77)\n\treturn []int{a, a + 1}\n}\n", "", "for _, v := range mk§(a) {\n\tr += v\n}\n", "")
+}
+
+func (k *c01K) rangeString() {
+	fam := "K:rangestring"
+	strs := []string{`"abc"`, `"h\u00e9y"`, `"a\xffb"`, `""`, `"\u65e5\u672c"`, `"ab"[:a+1]`, `sv`}
+	for _, s := range strs {
+		k.body(fam, "kv over "+s, "", "sv := \"x\"\nif b > 0 {\n\tsv += \"\\u00e9z\"\n}\n_ = sv\n", "for i, c := range "+s+" {\n\tobs(i)\n\tobs(int(c))\n\tr += i\n}\n", "")
+		k.body(fam, "k over "+s, "", "sv := \"x\"\nif b > 0 {\n\tsv += \"\\u00e9z\"\n}\n_ = sv\n", "for i := range "+s+" {\n\tr = r*7 + i\n}\n", "")
+		k.body(fam, "v over "+s, "", "sv := \"x\"\nif b > 0 {\n\tsv += \"\\u00e9z\"\n}\n_ = sv\n", "n := 0\nfor _, c := range "+s+" {\n\tif c == 'b' {\n\t\tbreak\n\t}\n\tn++\n\tobss(string(c))\n}\nr += n\n", "")
+	}
+	k.body(fam, "range over []byte conversion", "", "", "for i, c := range []byte(\"h\\u00e9\") {\n\tr += int(c) * (i + 1)\n}\n", "")
+	k.body(fam, "range over []rune conversion", "", "", "for i, c := range []rune(\"h\\u00e9\\xff\") {\n\tr += int(c) * (i + 1)\n}\n", "")
+}
+
+func (k *c01K) rangeFunc() {
+	fam := "K:rangefunc"
+	its := c01Lines(
+		"func it§(n int) func(yield func(int) bool) {",
+		"\treturn func(yield func(int) bool) {",
+		"\t\tfor i := 0; i < n; i++ {",
+		"\t\t\tobs(100 + i)",
+		"\t\t\tif !yield(i) {",
+		"\t\t\t\tobs(-100)",
+		"\t\t\t\treturn",
+		"\t\t\t}",
+		"\t\t}",
+		"\t\tobs(-200)",
+		"\t}",
+		"}",
+		"func it2§(yield func(int, string) bool) {",
+		"\t_ = yield(1, \"x\") && yield(2, \"yy\") && yield(3, \"zzz\")",
+		"}",
+		"func it0§(yield func() bool) {",
+		"\tif !yield() {",
+		"\t\treturn",
+		"\t}",
+		"\tyield()",
+		"}",
+		"type C§ struct{ lo, hi int }",
+		"func (c C§) All(yield func(int) bool) {",
+		"\tfor i := c.lo; i < c.hi; i++ {",
+		"\t\tif !yield(i) {",
+		"\t\t\treturn",
+		"\t\t}",
+		"\t}",
+		"}",
+	)
+	cores := []struct{ name, core string }{
+		{"sum", "for i := range it§(b + 1) {\n\tr += i\n\tobs(i)\n}\n"},
+		{"break", "for i := range it§(3) {\n\tif i == a {\n\t\tbreak\n\t}\n\tr += i + 1\n}\n"},
+		{"continue", "for i := range it§(3) {\n\tif i == a {\n\t\tcontinue\n\t}\n\tr += i + 1\n}\n"},
+		{"two values", "for i, s := range it2§ {\n\tr += i * len(s)\n\tobss(s)\n\tif i == b {\n\t\tbreak\n\t}\n}\n"},
+		{"no values", "for range it0§ {\n\tr++\n\tif r == b {\n\t\tbreak\n\t}\n}\n"},
+		{"method value iterator", "c := C§{a, b + 1}\nfor i := range c.All {\n\tr += i\n\tobs(i)\n}\n"},
+		{"capture", "var fs []func() int\nfor i := range it§(3) {\n\tfs = append(fs, func() int { return i })\n}\nfor _, f := range fs {\n\tr = r*10 + f()\n}\n"},
+		{"nested labelled break", "Outer:\nfor i := range it§(3) {\n\tfor j := range it§(2) {\n\t\tif i == a && j == b {\n\t\t\tbreak Outer\n\t\t}\n\t\tr += i*10 + j\n\t}\n}\n"},
+		{"nested labelled continue", "Outer:\nfor i := range it§(3) {\n\tfor j := range it§(3) {\n\t\tif j == b {\n\t\t\tcontinue Outer\n\t\t}\n\t\tr += i*10 + j\n\t}\n\tobs(i)\n}\n"},
+		{"mixed nesting", "Outer:\nfor i := 0; i < 3; i++ {\n\tfor j := range it§(3) {\n\t\tif j == b {\n\t\t\tcontinue Outer\n\t\t}\n\t\tif i == a {\n\t\t\tbreak Outer\n\t\t}\n\t\tr += i*10 + j\n\t}\n}\n"},
+		{"goto out", "for i := range it§(3) {\n\tif i == a {\n\t\tgoto Done\n\t}\n\tr += i + 1\n}\nr += 100\nDone:\nobs(r)\n"},
+		{"defer in body", "for i := range it§(b + 1) {\n\tdefer obs(i + 50)\n\tr += i\n}\nobs(r)\n"},
+		{"local modified in body", "x := a\nfor i := range it§(3) {\n\tx += i\n\tif x > 2 {\n\t\tbreak\n\t}\n}\nr = x\n"},
+	}
+	for _, c := range cores {
+		k.body(fam, c.name, its, "", c.core, "")
+	}
+	// return from inside the body (not wrappable in a closure: uses return)
+	k.add(fam, "return from body", its+"func f§(a, b int) (r int) {\n\tfor i := range it§(3) {\n\t\tif i == a {\n\t\t\treturn i*7 + 1\n\t\t}\n\t\tobs(i)\n\t}\n\treturn -1\n}\n")
+	k.add(fam, "return from nested bodies, two results", its+"func f§(a, b int) (int, string) {\n\tfor i := range it§(3) {\n\t\tfor j, s := range it2§ {\n\t\t\tif i == a && j == b {\n\t\t\t\treturn i*10 + j, s\n\t\t\t}\n\t\t}\n\t}\n\treturn -1, \"none\"\n}\n")
+	k.add(fam, "return with named result and defer", its+"func f§(a, b int) (r int) {\n\tdefer func() {\n\t\tr += 1000\n\t}()\n\tfor i := range it§(3) {\n\t\tif i == a {\n\t\t\tr = i\n\t\t\treturn\n\t\t}\n\t\tif i == b {\n\t\t\treturn i + 50\n\t\t}\n\t}\n\treturn 7\n}\n")
+	k.add(fam, "panic in body recovered by caller's defer", its+"func f§(a, b int) (r int) {\n\tdefer func() {\n\t\tif e := recover(); e != nil {\n\t\t\tr = -e.(int)\n\t\t}\n\t}()\n\tfor i := range it§(3) {\n\t\tif i == a {\n\t\t\tpanic(i + 40)\n\t\t}\n\t\tr += i + 1\n\t}\n\treturn\n}\n")
+	k.add(fam, "runtime panic in body unrecovered", its+"func f§(a, b int) (r int) {\n\tfor i := range it§(3) {\n\t\tr += 10 / (i - a)\n\t\tobs(r)\n\t}\n\treturn\n}\n")
+	k.add(fam, "iterator as parameter", its+"func use§(seq func(func(int) bool), lim int) (n int) {\n\tfor v := range seq {\n\t\tif v >= lim {\n\t\t\treturn n\n\t\t}\n\t\tn += v + 1\n\t}\n\treturn -n\n}\nfunc f§(a, b int) int {\n\treturn use§(it§(a+2), b)\n}\n")
 }
